@@ -11,15 +11,23 @@
 (*  slip39   {mnemonics[[..]], pass, refused, out}  slip39.master_secret_..*)
 (*  slip39own {mnemonics, pass, secret, refused, out}  an honest selection  *)
 (*  hmac512  {key, msg, out}                 bip85 entropy                 *)
+(*  seedtypes {lang, in_list, idx[], slip_idx[], norm, nwords, out[],      *)
+(*             first}                        mnemonic.dispatch            *)
 (***************************************************************************)
 EXTENDS SLIP39, EvBase
 HX(s) == FromHex(s)
 N(h) == BFromBytes(FromHex(h))
+SeedTypes(e) ==
+  (IF e.slip_idx # << >> /\ Decode(e.slip_idx)[1] = "ok" THEN <<"slip39">> ELSE << >>)
+  \o (LET v == ElectrumVersion(HX(e.norm), e.nwords) IN IF v = "none" THEN << >> ELSE <<"electrum_" \o v>>)
+  \o (IF ~e.in_list THEN << >> ELSE IF Bip39Entropy(e.idx)[1] = "ok" THEN <<"bip39">> ELSE <<"bip39_wordlist">>)
 Check(e) ==
   CASE e.op = "bip39enc" -> e.indexes = Bip39Indexes(HX(e.entropy))
     [] e.op = "bip39dec" -> LET r == Bip39Entropy(e.indexes) IN IF r[1] = "refused" THEN e.out = "refused" ELSE e.out = ToHex(r[2])
     [] e.op = "bip39seed" -> e.out = ToHex(Bip39Seed(HX(e.text), HX(e.pass)))
     [] e.op = "elver" -> e.out = ElectrumVersion(HX(e.norm), e.nwords)
+    \* which schemes claim a sentence (mnemonic.dispatch), SLIP-0039 first, then Electrum's version, then BIP39 in the language named
+    [] e.op = "seedtypes" -> LET want == SeedTypes(e) IN e.out = want /\ e.first = (IF want = << >> THEN "" ELSE want[1])
     [] e.op = "elint" -> N(e.out) = ElectrumInt(e.indexes, e.base)
     [] e.op = "elseed" -> e.out = ToHex(ElectrumSeed(HX(e.norm), HX(e.normpass)))
     [] e.op = "slip39" -> LET r == MasterSecret(e.mnemonics, HX(e.pass)) IN
@@ -31,6 +39,7 @@ EventOK == i > 0 => Check(Trace[i])
 Diag == i > 0 => PrintT(<<"DIAG", i, <<Trace[i].op,
            CASE Trace[i].op = "bip39enc" -> Bip39Indexes(HX(Trace[i].entropy))
              [] Trace[i].op = "bip39dec" -> Bip39Entropy(Trace[i].indexes)
+             [] Trace[i].op = "seedtypes" -> SeedTypes(Trace[i])
              [] Trace[i].op = "elver" -> ElectrumVersion(HX(Trace[i].norm), Trace[i].nwords)
              [] Trace[i].op = "slip39" -> MasterSecret(Trace[i].mnemonics, HX(Trace[i].pass))
              [] Trace[i].op = "hmac512" -> ToHex(HMAC(HF("sha512"), HX(Trace[i].key), HX(Trace[i].msg)))
